@@ -14,3 +14,5 @@ GROUPS = [
  _s("obj_init", "COObjInit", 7, ["core/co_obj.c"], {"C06": "quick", "C01": "quick"}),
  _s("nmt_get", "CONmtGetMode/CONmtGetNodeId", 5, ["core/co_nmt.c"], {"C09": "quick", "C01": "quick"}),
 ]
+GROUPS.append(dict(name="lss_delay", fn="CO_LssActivateBitTiming_SwitchDelay", form="explicit", harness="lss_delay.c", static_tu="service/cia305/co_lss.c", tus=[], loop_tus={}, defs=[], nondet_static=True,
+                   unwind_all=22, reach=["post", "a", "b"], props={"C01": "quick"}, timeout=300, cost=3, object_bits=10))
